@@ -151,7 +151,42 @@ Fixpoint canon_rows (cs : list crow) (ks : list lkey) (prev : option (N * option
       {| rr_room := r; rr_ent := e; rr_day := d; rr_n := N.of_nat (length sg); rr_dirty := false;
          rr_daily := enc_oh daily; rr_hist := enc_oh hist' |} :: canon_rows cs t (Some (r, hist', daily))
   end.
-Definition canon_log (cs : list crow) : list rawrow := canon_rows cs (stored_keys cs) None.
+Definition canon_log_v1 (cs : list crow) : list rawrow := canon_rows cs (stored_keys cs) None.
+
+(* the canonical log once requests/C09-fix-6.diff is applied: one row per stored key; the history of
+   a room is the chain over its stored keys in (day, entity) order: the first one carries its daily
+   hash, every other one hashes the history and the daily hash of the one before — a fold of the
+   day contents in day order, nothing else *)
+Definition chainkey_ltb (a b : lkey) : bool :=
+  let '(r1, e1, d1) := a in let '(r2, e2, d2) := b in
+  N.ltb r1 r2 || (N.eqb r1 r2 && (Z.ltb d1 d2 || (Z.eqb d1 d2 && N.ltb e1 e2))).
+Fixpoint ckinsert (k : lkey) (l : list lkey) : list lkey :=
+  match l with
+  | [] => [k]
+  | h :: t => if key_eqb h k then l else if chainkey_ltb k h then k :: l else h :: ckinsert k t
+  end.
+Definition chain_keys (cs : list crow) : list lkey := fold_left (fun a c => ckinsert (ckey_of c) a) cs [].
+Fixpoint canon_rows2 (cs : list crow) (ks : list lkey) (prev : option (N * option hterm * option hterm)) : list rawrow :=
+  match ks with
+  | [] => []
+  | (r, e, d) :: t =>
+      let sg := stored_sigs cs r e d in
+      let daily := daily_of sg in
+      let hist := match prev with
+                  | Some (pr, ph, pd) => if N.eqb pr r then match ph with Some p => Some (HC p pd) | None => None end else daily
+                  | None => daily end in
+      {| rr_room := r; rr_ent := e; rr_day := d; rr_n := N.of_nat (length sg); rr_dirty := false;
+         rr_daily := enc_oh daily; rr_hist := enc_oh hist |} :: canon_rows2 cs t (Some (r, hist, daily))
+  end.
+Definition rr_ltb (a b : rawrow) : bool :=
+  key_ltb (rr_room a, rr_ent a, rr_day a) (rr_room b, rr_ent b, rr_day b).
+Fixpoint rr_insert (r : rawrow) (l : list rawrow) : list rawrow :=
+  match l with [] => [r] | h :: t => if rr_ltb r h then r :: l else h :: rr_insert r t end.
+Definition canon_log_v2 (cs : list crow) : list rawrow :=
+  fold_left (fun acc r => rr_insert r acc) (canon_rows2 cs (chain_keys cs) None) [].
+
+(* THE SWITCH (together with DailyLog.compute): v1 = /repo as it is, v2 = with requests/C09-fix-6.diff *)
+Definition canon_log := canon_log_v1.
 Definition rawrow_eqb (a b : rawrow) : bool :=
   N.eqb (rr_room a) (rr_room b) && N.eqb (rr_ent a) (rr_ent b) && Z.eqb (rr_day a) (rr_day b) &&
   N.eqb (rr_n a) (rr_n b) && Bool.eqb (rr_dirty a) (rr_dirty b) &&
